@@ -442,6 +442,159 @@ def corpus(k0):
     return cs
 
 
+
+# ------------------------------------------------------------------ end to end (supporting)
+SAFE_TOP = [b"t1", b"tree", b"file.txt", b"data_2", b"A"]
+HOSTS3 = ["h1", "h2", "h3"]
+
+
+def tame(node):
+    """as uid 1000: readable sources, writable directories, no set-id bits, whole seconds"""
+    node.nsec = 0
+    if node.kind == "d":
+        node.mode = (node.mode & 0o777) | 0o700
+        for k in node.kids:
+            tame(k)
+    else:
+        node.mode = (node.mode & 0o777) | 0o400
+
+
+def run_e2e(ctx, cov, dist):
+    """the real `pdcp`/`rpdcp` front ends through tests/test-modules/pcptest.so on three targets as uid 1000:
+    the remote command line built by dsh() (compared with the model's pdcpCmd/rpdcpCmd through a logging stand-in for
+    the remote program), `.host` naming, and the copies themselves (specification oracle per target)"""
+    rng = ctx.rng
+    repo = ctx.repo_build()
+    if not repo:
+        return
+    q = subprocess.run("make a.la b.la pcptest.la >/dev/null 2>&1", shell=True, cwd=os.path.join(repo, "tests/test-modules"))
+    moddir = os.path.join(repo, "tests/test-modules/.libs")
+    if q.returncode != 0 or not os.path.exists(os.path.join(moddir, "pcptest.so")):
+        ctx.notes.append("e2e skipped: tests/test-modules/pcptest.so does not build")
+        dist["e2e"] = "skipped (pcptest.so does not build)"
+        return
+    os.chmod(ctx.scratch, 0o755)
+    bindir = os.path.join(ctx.scratch, "e2ebin")
+    os.makedirs(bindir, exist_ok=True)
+    for n in ("pdcp", "rpdcp"):
+        if not os.path.lexists(os.path.join(bindir, n)):
+            os.symlink(os.path.join(repo, "src/pdsh/pdsh"), os.path.join(bindir, n))
+    nruns = 6 if ctx.quick() else 60
+    future = int(time.time()) + 50000000
+    dist["e2e_runs"] = 0
+    for k in range(nruns):
+        w = os.path.join(ctx.scratch, "e2e%d" % k)
+        shutil.rmtree(w, ignore_errors=True)
+        os.makedirs(w)
+        log = os.path.join(w, "argv.log")
+        open(log, "w").close()
+        os.chmod(log, 0o666)
+        wrapper = os.path.join(w, "remote_pdcp")
+        with open(wrapper, "w") as f:
+            f.write('#!/bin/sh\nprintf "%%s\\n" "$0 $*" >> %s\nexec %s/pdcp "$@"\n' % (log, bindir))
+        os.chmod(wrapper, 0o755)
+        reverse = k % 2 == 1
+        p = rng.choice([0, 1])
+        r = 1
+        nsrc = rng.choice([1, 2])
+        budget = [rng.choice([2, 6, 12])]
+        trees = []
+        # the first runs pin the corners of the command-line rules: exactly two list entries (-y), one entry (no -y),
+        # -p on and off in both directions, no -r for plain files
+        plan = [dict(p=1, shape="emptydir"), dict(p=1, shape="any"), dict(p=0, shape="file"), dict(p=0, shape="any"),
+                dict(p=1, shape="two"), dict(p=1, shape="file")]
+        shape = "any"
+        if k < len(plan):
+            p, shape = plan[k]["p"], plan[k]["shape"]
+        if shape == "emptydir":
+            trees = [Node(b"tree", "d", 0o750, 1300000000, kids=[])]
+        elif shape == "file":
+            trees = [Node(b"file.txt", "f", 0o640, 1300000001, gen=(77, 10240))]
+            r = 0
+        else:
+            if shape == "two":
+                nsrc = 2
+            for nm in rng.sample(SAFE_TOP, nsrc):
+                t = gen_tree(rng, nm, 1, budget, want_dir=(None if rng.random() < 0.5 else True), big_ok=True)
+                trees.append(t)
+            if all(t.kind == "f" for t in trees) and rng.random() < 0.5:
+                r = 0
+        for t in trees:
+            tame(t)
+        bw = os.fsencode(w)
+        roots = [bw + b"/" + h.encode() + b"/rsrc" for h in HOSTS3] if reverse else [bw + b"/src"]
+        for h in HOSTS3:
+            os.makedirs(os.path.join(w, h, "dst"))
+        os.makedirs(os.path.join(w, "out"))
+        for root in roots:
+            os.makedirs(root, exist_ok=True)
+            for t in trees:
+                materialize(root, t, future)
+            for t in trees:
+                set_meta(root, t, future)
+        for t in trees:
+            reorder(roots[0], t)
+        subprocess.run(["chown", "-R", "1000:1000", w])
+        env = ["env", "PDSH_MODULE_DIR=" + moddir, "PATH=" + bindir + ":/usr/bin:/bin"]
+        flags = (["-r"] if r else []) + (["-p"] if p else [])
+        if reverse:
+            users = ["rsrc/" + t.name.decode() for t in trees]
+            cmd = ["rpdcp", "-R", "pcptest", "-w", "h[1-3]"] + flags + ["-e", wrapper] + users + ["out"]
+        else:
+            users = ["src/" + t.name.decode() for t in trees]
+            cmd = ["pdcp", "-R", "pcptest", "-w", "h[1-3]"] + flags + ["-e", wrapper] + users + ["dst"]
+        full = ["setpriv", "--reuid", "1000", "--regid", "1000", "--clear-groups"] + env + cmd
+        cj = dict(e2e=True, command=" ".join(cmd), sources=[describe(t) for t in trees])
+        try:
+            pr = subprocess.run(full, cwd=w, stdout=subprocess.PIPE, stderr=subprocess.PIPE, timeout=120)
+        except subprocess.TimeoutExpired:
+            ctx.offender("timeout", "pdcp/rpdcp end to end run hangs: " + " ".join(cmd), cj)
+            continue
+        cov["evaluations"] += 1
+        dist["e2e_runs"] += 1
+        cj["rc"], cj["stderr"] = pr.returncode, pr.stderr.decode("latin-1")[-400:]
+        if pr.returncode != 0 or pr.stderr.strip():
+            ctx.offender("e2e:reported-error", "pdcp/rpdcp reports an error on a copy that must succeed (rc=%d): %s" %
+                         (pr.returncode, pr.stderr.decode("latin-1")[-300:]), cj)
+            continue
+        # ---- the remote command lines
+        nent = sum(count_entries(t) for t in trees)
+        logged = sorted(open(log).read().splitlines())
+        if reverse:
+            mlines = ["cmdr %s %d %d %s %s" % (hx(os.fsencode(wrapper)), r, p, hx(h.encode()),
+                                               " ".join(hx(u.encode()) for u in users)) for h in HOSTS3]
+        else:
+            mlines = ["cmdf %s %d %d %d %s" % (hx(os.fsencode(wrapper)), r, p, nent, hx(b"dst"))] * 3
+        want = sorted(" ".join(pcp.unhx(x).decode().split()) for x in ctx.model("pcp", "".join(l + "\n" for l in mlines)))
+        if logged != want:
+            ctx.disagreement("pcp command line (dsh())", "remote command lines: real %r model %r" % (logged, want), cj)
+        # ---- the copies
+        gens = {}
+        for t in trees:
+            for _, n in walk(t, []):
+                if n.kind == "f":
+                    d = pcp.lcg_bytes(*n.gen)
+                    gens[d[:64] + b"|%d" % len(d)] = n.gen
+        slines = []
+        for h in HOSTS3:
+            if reverse:
+                snap = pcp.snapshot(os.path.join(w, "out"))
+                stoks = []
+                for t in trees:
+                    stoks += tokens(t, name=t.name + b"." + h.encode())
+            else:
+                snap = pcp.snapshot(os.path.join(w, h, "dst"))
+                stoks = []
+                for t in trees:
+                    stoks += tokens(t)
+            ft = snapshot_tokens(snap, gens)
+            slines.append("spec11 %d - %d %s %s" % (p, len(ft), " ".join(ft), " ".join(stoks)))
+        for h, sp in zip(HOSTS3, ctx.model("pcp", "".join(l + "\n" for l in slines))):
+            if sp != "ok":
+                cj["target"] = h
+                ctx.offender("e2e:fidelity", "target %s: copy differs from the source: %s" % (h, sp[:300]), cj)
+        shutil.rmtree(w, ignore_errors=True)
+
 def run(ctx):
     rng = ctx.rng
     ctx.gen_consts(["pcp"])
@@ -476,6 +629,8 @@ def run(ctx):
         cases += [gen_case(rng, len(cases) + i, ctx.quick()) for i in range(n)]
         for i in range(0, len(cases), 500):
             run_cases(ctx, exe, cases[i:i + 500], cnt, repaired, cov, dist, distinct)
+        if os.environ.get("VERIF_C11_E2E", "1") != "0":
+            run_e2e(ctx, cov, dist)
     cov["distinct_nontrivial"] = len(distinct)
     cov["distribution"] = dist
     cov["traces_validated_against_impl"] = cov["evaluations"]
